@@ -121,6 +121,12 @@ from tdda.referencetest import ReferenceTestCase, tag
 def _log(s):
     with open(os.environ['TLOG'], 'a') as f:
         f.write(s + '\\n')
+import functools
+def _wrapped(fn):
+    @functools.wraps(fn)
+    def inner(*a, **k):
+        return fn(*a, **k)
+    return inner
 '''
 
 
@@ -166,6 +172,9 @@ def module_text(classes, hook=False):
         for m, t in ms:
             if t:
                 out.append('    @tag')
+            if (len(m) + len(n)) % 3 == 0:
+                # another decorator between the tag (if any) and the function: the tag is the outer one
+                out.append('    @_wrapped')
             out.append('    def %s(self): _log(type(self).__name__ + %r)' % (m, '.' + m))
     if hook:
         out.append(LOAD_TESTS % ', '.join(c[0] for c in classes))
